@@ -230,6 +230,22 @@ def compare(cfg, ser, m, stats):
         else:
             for k in si:
                 num('residual_it', si[k][0], pi[k][0], key + (k,), vtol)
+    # restart counters: the serial flavour aliases them (known finding), so the MPI run is also checked against the
+    # documented update rule itself: slot j of the next block inherits from slot j + restart_from of this block
+    blocks = sorted({k[0] for k in steps})
+    for b in blocks[:-1]:
+        slots = sorted(k[1] for k in steps if k[0] == b)
+        nb = len(slots)
+        rf = min([j for j in slots if steps[(b, j)]['restart']] + [nb - 1])
+        for j in sorted(k[1] for k in pre if k[0] == b + 1):
+            src = (b, j + rf)
+            if j + rf < nb and src in steps and src in pre:
+                exp = pre[src]['ria'] + 1 if steps[src]['restart'] else 0
+            else:
+                exp = 0
+            if pre[(b + 1, j)]['ria'] != exp:
+                bad.append(('restarts_in_a_row_rule', {'step': (b + 1, j), 'expected': exp, 'mpi': pre[(b + 1, j)]['ria'],
+                                                       'restart_from': rf}))
     # value returned by run() on every rank taking part in the last block
     nblocks = {}
     for w, r in enumerate(m['ranks']):
@@ -291,6 +307,7 @@ def core_configs():
         C('t4adaptlin', P=4, adaptivity={'e_tol': 1e-5, 'embedded_error_flavor': 'linearized'}, **ad),
         C('t3vdp', P=3, problem='vdp', mu=2.0, dt=0.05, Tend=0.4, maxiter=6, adaptivity={'e_tol': 1e-6}, restol=-1),
         C('t3art', P=3, art_restarts=[0.25, 0.5], restarting={'max_restarts': 2}, Tend=1.5),
+        C('t4artearly', P=4, art_restarts=[0.125, 0.625, 0.75], restarting={'max_restarts': 2}, Tend=1.5),
         C('t4artdt', P=4, art_restarts=[0.375], art_dt=3, restarting={'max_restarts': 1},
           spread={'spread_from_first_restarted': False}, Tend=2.0),
         C('t3artfirst', P=3, art_restarts=[0.25, 0.625], restarting={'max_restarts': 2, 'restart_from_first_step': True},
@@ -534,10 +551,11 @@ def run(ck):
                              'C08_buffering_independent', 'C08_rendezvous_complete_all_complete', 'C08_replay_sound',
                              'C08_accepted_log_is_execution', 'C08_skeleton_schedule_independent',
                              'C08_skeleton_deadlock_free_all_buffering', 'C08_recv_matched_once',
-                             'C08_buffer_untouched_until_complete', 'C08_test_breaks_confluence'])
+                             'C08_buffer_untouched_until_complete', 'C08_test_breaks_confluence', 'C08_confluence',
+                             'C08_matching_symmetric'])
 
     cfgs = core_configs() + [dict(c) for c in SMALL]
-    nrand = 60 if thorough else 10
+    nrand = 100 if thorough else 10
     for i in range(nrand):
         cfgs.append(random_config(rng, i))
     only = os.environ.get('C08_CONFIGS')       # debugging / mutation aid: restrict to some configuration names
